@@ -48,15 +48,17 @@ def q1(ctx):
     if adt is None:
         raise mir.AnchorMissing(SM)
     f = adt["variants"][0]["fields"]
-    ctx.check(len(f) == 1 and f[0]["name"] == "map" and f[0]["vis"] not in ("pub", "crate"), "field-private", "SlotMap.map is private to module slotmap (%s)" % f[0]["vis"],
+    FLD = f[0]["name"]            # the one field of the map, whatever it is called
+    P = lambda body, i: ("param", body.var_names.get(i))      # parameters by position
+    ctx.check(len(f) == 1 and f[0]["vis"] not in ("pub", "crate"), "field-private", "SlotMap.map is private to module slotmap (%s)" % f[0]["vis"],
               "SlotMap.map is visible as %s: code outside slotmap.rs can break the sortedness invariant" % f[0]["vis"])
     # every function touching the field mutably / moving it
-    w = crate.field_writers(SM, "map")
+    w = crate.field_writers(SM, FLD)
     movers = set()
     for b in crate.bodies.values():
         for c in b.calls:
             for a in c.args:
-                if a["k"] == "move" and mir.place_has_field(a["pl"], SM, "map") and not b.blocks[c.bb]["cleanup"]:
+                if a["k"] == "move" and mir.place_has_field(a["pl"], SM, FLD) and not b.blocks[c.bb]["cleanup"]:
                     movers.add(crate.root_of(b).id)
     writers = set(w) | movers
     allowed = {"slotmap::SlotMap::insert": "sorted positional insert / overwrite (checked below)",
@@ -84,14 +86,14 @@ def q1(ctx):
     # search = binary_search_by_key(&l, |(x,_)| *x)
     se = m(crate, "search")
     bs = [c for c in se.calls if c.callee and c.callee.name.startswith("binary_search")]
-    ok = len(bs) == 1 and bs[0].callee.name == "binary_search_by_key" and strip_role(se.role_of_operand(bs[0].args[1])) == ("param", "l") \
-        and role_mentions_field(se.role_of_operand(bs[0].args[0]), "map") and closure_returns_component(crate, se.role_of_operand(bs[0].args[2]), "0") \
+    ok = len(bs) == 1 and bs[0].callee.name == "binary_search_by_key" and strip_role(se.role_of_operand(bs[0].args[1])) == P(se, 2) \
+        and role_mentions_field(se.role_of_operand(bs[0].args[0]), FLD) and closure_returns_component(crate, se.role_of_operand(bs[0].args[2]), "0") \
         and strip_role(se.role_of_local(0))[0] == "call" and strip_role(se.role_of_local(0))[1] == "binary_search_by_key"
     ctx.check(ok, "search-is-binary-search-on-key", "search(l) = map.binary_search_by_key(&l, |(x, _)| *x)", "SlotMap::search is no longer a binary search for l on the key component", where_of(se))
     # insert
     ins = m(crate, "insert")
     sc = [c for c in ins.calls if c.callee and c.callee.target == se.id]
-    ok = len(sc) == 1 and strip_role(ins.role_of_operand(sc[0].args[1])) == ("param", "l")
+    ok = len(sc) == 1 and strip_role(ins.role_of_operand(sc[0].args[1])) == P(ins, 2)
     ctx.check(ok, "insert-searches-its-key", "insert(l, r) searches for l", "insert does not search for the key it inserts", where_of(ins))
     pos = [c for c in ins.calls if c.callee and c.callee.name == "insert" and "SmallVec" in (c.callee.impl_self or "")]
     okp = False
@@ -99,7 +101,7 @@ def q1(ctx):
         idx = strip_role(ins.role_of_operand(c.args[1]))
         val = strip_role(ins.role_of_operand(c.args[2]))
         okp = idx[0] == "field" and idx[2] == "0" and idx[1][0] == "variant" and idx[1][2] == "Err" and role_mentions_call(idx, "search") \
-            and val[0] == "agg" and [strip_role(x) for x in val[2]] == [("param", "l"), ("param", "r")]
+            and val[0] == "agg" and [strip_role(x) for x in val[2]] == [P(ins, 2), P(ins, 3)]
     ctx.check(len(pos) == 1 and okp, "insert-at-err-index", "a new key is inserted at the Err(i) insertion point as (l, r)", "insert places a new pair at a position other than search's Err index, or not the pair (l, r)", where_of(ins))
     ow = [c for c in ins.calls if c.callee and c.callee.name == "index_mut"]
     oko = False
@@ -109,7 +111,7 @@ def q1(ctx):
         st = [s for bi, si, s in ins.statements() if s["k"] == "assign" and s["lhs"]["l"] == d and s["lhs"]["p"] == ["*"]]
         if idx[0] == "field" and idx[1][0] == "variant" and idx[1][2] == "Ok" and len(st) == 1:
             v = strip_role(ins.role_of_rvalue(st[0]["rv"]))
-            oko = v[0] == "agg" and [strip_role(x) for x in v[2]] == [("param", "l"), ("param", "r")]
+            oko = v[0] == "agg" and [strip_role(x) for x in v[2]] == [P(ins, 2), P(ins, 3)]
     ctx.check(len(ow) == 1 and oko, "overwrite-at-ok-index", "an existing key is overwritten in place at Ok(i) with (l, r) (same key, so order is kept)",
               "insert overwrites at a position other than search's Ok index, or with a different key", where_of(ins))
     # remove
@@ -118,7 +120,7 @@ def q1(ctx):
     okr = False
     for c in rc:
         idx = strip_role(rm.role_of_operand(c.args[1]))
-        okr = idx[0] == "field" and idx[1][0] == "variant" and idx[1][2] == "Ok" and role_mentions_call(idx, "search") and strip_role(strip_role(idx[1][1])[3][1]) == ("param", "x")
+        okr = idx[0] == "field" and idx[1][0] == "variant" and idx[1][2] == "Ok" and role_mentions_call(idx, "search") and strip_role(strip_role(idx[1][1])[3][1]) == P(rm, 2)
     ctx.check(len(rc) == 1 and okr, "remove-at-ok-index", "remove(x) deletes at the Ok(i) index of search(x) (deleting keeps a sorted vector sorted)", "remove deletes at an index not returned by search(x)", where_of(rm))
     # values_mut
     vm = m(crate, "values_mut")
@@ -397,7 +399,7 @@ def q3(ctx):
         okc = okc or (isinstance(rr, tuple) and rr[0] == "field" and rr[2] == "1")
     # match form: the Some payload is `.1` of the pair at the index search() found
     for x in role_walk(r):
-        if isinstance(x, tuple) and x[0] == "field" and x[2] == "1" and role_mentions_field(x[1], "map") and role_mentions_call(x[1], "search"):
+        if isinstance(x, tuple) and x[0] == "field" and x[2] == "1" and role_mentions_field(x[1], crate.adts[SM]["variants"][0]["fields"][0]["name"]) and role_mentions_call(x[1], "search"):
             okc = True
     ctx.check(ok and okc, "get-is-search-then-value", "get(l) = search(l).ok().map(|i| map[i].1)", "get is %s" % role_str(r)[:100], where_of(g))
     ix = [b for b in crate.by_name.get("index", []) if b.impl_self == SM and (b.impl_trait or "").endswith("ops::Index")]
